@@ -2,7 +2,10 @@ package main
 
 import (
 	"fmt"
+	"os"
+	"os/exec"
 	"strings"
+	"time"
 
 	"verifharness/common"
 )
@@ -404,11 +407,19 @@ func generate(r *runner) {
 		r.run("create", []*Model{m}, "")
 	}
 	// 1b. unorderable reference graphs (self reference, cycle, reference to a missing column): not judged, compared
+	//     (only when a child process shows that the real fix-point ends on a self reference: otherwise this stream
+	//     would kill the harness with a stack overflow, which is C20's finding, not a C16 one)
+	unorderableOK := probeSelfReference()
+	if !unorderableOK {
+		c.Res.Notes = append(c.Res.Notes, "stream create-unorderable skipped: CreateTableDepthMap does not return on a self-referencing table (child process crashed or exceeded 20 s)")
+	}
 	for i := 0; i < nCreate/6; i++ {
-		g := fresh(false)
+		g := fresh(false) // drawn in any case, so that the later streams do not depend on the probe
 		m := g.model(maxT)
 		g.makeUnorderable(m)
-		r.run("create-unorderable", []*Model{m}, "")
+		if unorderableOK {
+			r.run("create-unorderable", []*Model{m}, "")
+		}
 	}
 	// 2. pairs: one targeted edit kind (every kind equally often), or a mixed script of up to 4 edits
 	for i := 0; i < nPair; i++ {
@@ -475,4 +486,39 @@ func fixedShapes(r *runner) {
 	addFK.Tables[2].Cols = append(addFK.Tables[2].Cols, ref("q", "Q", "id"))
 	r.run("delta", []*Model{base, addFK}, "reference column added")
 	r.run("chain", []*Model{base, addFK, dropFK}, "add then remove references")
+}
+
+// probeSelfReference runs the real creation-script generator on `T: id; parent <: T.id` in a child process.
+func probeSelfReference() bool {
+	exe, err := os.Executable()
+	if err != nil {
+		return false
+	}
+	cmd := exec.Command(exe)
+	cmd.Env = append(os.Environ(), "VERIF_C16_PROBE=1")
+	if err := cmd.Start(); err != nil {
+		return false
+	}
+	done := make(chan error, 1)
+	go func() { done <- cmd.Wait() }()
+	select {
+	case err := <-done:
+		return err == nil
+	case <-time.After(20 * time.Second):
+		cmd.Process.Kill()
+		<-done
+		return false
+	}
+}
+
+func runProbe() {
+	m := &Model{NFiles: 1, Pad: []int{0}, Gap: []int{0}, Tables: []Table{{Name: "T", Cols: []Col{
+		{Name: "id", Prim: "int", PK: true}, {Name: "parent", Ref: &[2]string{"T", "id"}}}}}}
+	files, _, _ := m.render()
+	mod, err := compile(files)
+	if err != nil {
+		os.Exit(0) // the front end refusing the text says nothing about the fix-point
+	}
+	realCreate(mod)
+	os.Exit(0)
 }
